@@ -492,6 +492,68 @@ def diffuse_field_objects(run, hvsrpy, hook):
     run.notes["diffuse_field_objects"] = n
 
 
+def contour_mesh(run, hvsrpy, hook):
+    """The azimuthal contour (2-D) and surface (3-D): the row drawn at azimuth a carries the mean curve OF azimuth a, for results whose
+    azimuths are listed in increasing order and for results whose azimuths are not (the object keeps the order it was given).  The
+    arrays handed to contourf / plot_surface are captured through axes supplied by the caller."""
+    plt = hook.plt
+    f = np.geomspace(0.5, 20, 12)
+    rs = np.random.RandomState(11)
+    n = 0
+    for azs in ([0.0, 45.0, 90.0, 135.0], [90.0, 0.0, 135.0, 45.0], [150.0, 30.0]):
+        trads = []
+        for k, a_ in enumerate(azs):
+            rows = 1.0 + 0.1 * rs.rand(3, len(f))
+            rows[:, 2 + (3 * k) % 8] += 2.0 + k          # every azimuth has its own, clearly different mean curve
+            trads.append(hvsrpy.HvsrTraditional(f, rows))
+        obj = hvsrpy.HvsrAzimuthal(trads, azs)
+        for dm in ("lognormal", "normal"):
+            want = {float(a_): np.asarray(t.mean_curve(dm)) for a_, t in zip(azs, obj.hvsrs)}
+            for dim in (2, 3):
+                fig = plt.figure()
+                ax = fig.add_subplot(projection="3d") if dim == 3 else fig.add_subplot()
+                got = {}
+                name = "contourf" if dim == 2 else "plot_surface"
+                orig = getattr(ax, name)
+
+                def capture(X, Y, Z, *a_, _orig=orig, **k_):
+                    got["xyz"] = (np.asarray(X), np.asarray(Y), np.asarray(Z))
+                    return _orig(X, Y, Z, *a_, **k_)
+                setattr(ax, name, capture)
+                try:
+                    with warnings.catch_warnings():
+                        warnings.simplefilter("ignore")
+                        if dim == 2:
+                            hvsrpy.plot_azimuthal_contour_2d(obj, distribution_mc=dm, fig=fig, ax=ax)
+                        else:
+                            hvsrpy.plot_azimuthal_contour_3d(obj, distribution_mc=dm, ax=ax)
+                except TypeError:
+                    got = None         # (this function does not take caller-supplied axes: nothing to capture)
+                except Exception as e:
+                    run.violation(f"plot:contour{dim}d:exception", f"azimuths {azs}: {type(e).__name__}: {e}", dict(kind="plot-mesh", azs=azs, dim=dim))
+                    got = None
+                plt.close("all")
+                if not got:
+                    continue
+                X, Y, Z = got["xyz"]
+                bad = []
+                for r_ in range(Y.shape[0]):
+                    a_row = float(Y[r_, 0])
+                    key_ = 0.0 if a_row == 180.0 and 180.0 not in want else a_row          # the surface is closed at 180 degrees with azimuth 0 ...
+                    if key_ not in want:
+                        key_ = float(azs[0]) if a_row == 180.0 else None                   # ... or, as today, with the FIRST azimuth listed
+                    if key_ is None or not np.all(Y[r_] == a_row):
+                        bad.append((r_, a_row, "no such azimuth"))
+                    elif not (np.allclose(Z[r_], want[key_], rtol=1e-12) or (a_row == 180.0 and np.allclose(Z[r_], want[float(azs[0])], rtol=1e-12))):
+                        bad.append((r_, a_row, "curve of another azimuth"))
+                if bad:
+                    run.violation(f"plot:contour{dim}d:mesh-rows", f"azimuths {azs} ({dm}): rows {bad} of the {'contour' if dim == 2 else 'surface'} mesh do not carry the "
+                                  f"mean curve of the azimuth they are drawn at", dict(kind="plot-mesh", azs=azs, dim=dim, dm=dm))
+                n += 1
+                run.case(("mesh", tuple(azs), dm, dim))
+    run.notes["contour_meshes_checked"] = n
+
+
 def main():
     run = Run("C20")
     hvsrpy = import_hvsrpy()
@@ -526,6 +588,7 @@ def main():
     kwargs_objects(run, hvsrpy, hook)
     replot_after_change(run, hvsrpy, hook)
     diffuse_field_objects(run, hvsrpy, hook)
+    contour_mesh(run, hvsrpy, hook)
     # ---- read-only with respect to EVERY object alive, not only the one that is drawn (spec/TraceResultHeap.tla): sessions in which
     #      traditional, azimuthal and diffuse-field results with histories are plotted, summarised and assessed between other operations
     import resultheap
